@@ -339,16 +339,23 @@ def fam_reuse_cond(E, modes=(0, 1), shapes=(0, 1)):
     g = [E.int('g%d' % i, 0, 6) for i in range(5)]
     w = [E.int('w%d' % i, 0, 30) for i in range(2)]
     a, b, c = Flag(), Flag(), Flag()
-    cond = ((a & b) | c) if shape == 0 else (a | c)
+    d = Flag()
+    # shape 2: a & d with the sequence a on, a off, d on, a on - an operand that was true when
+    # the wait began turns false and true again while the other one becomes true
+    cond = ((a & b) | c) if shape == 0 else ((a | c) if shape == 1 else (a & d))
     log = Log()
     waiting = {}
 
     def ref():
+        if shape == 2:
+            return bool(a._value and d._value)
         return bool((a._value and (b._value or shape == 1)) or c._value)
 
     async def driver():
         await b.set()
-        for k, (flag, val) in enumerate(((c, True), (a, True), (c, False), (a, False), (a, True))):
+        seq = ((c, True), (a, True), (c, False), (a, False), (a, True)) if shape != 2 else \
+            ((a, True), (a, False), (d, True), (a, True), (d, True))
+        for k, (flag, val) in enumerate(seq):
             await (time + g[k])
             log('drv', 'toggle', k)
             await flag.set(val)
@@ -411,7 +418,8 @@ def fam_reuse_cond(E, modes=(0, 1), shapes=(0, 1)):
 
 
 FAMILIES.append(
-    Family('reuse_cond', fam_reuse_cond, quick=dict(modes=(0,)), thorough=dict(),
+    Family('reuse_cond', fam_reuse_cond, quick=dict(modes=(0,), shapes=(0, 1, 2)),
+           thorough=dict(shapes=(0, 1, 2)),
            reach=['second-use-after-the-first-was-released', 'second-use-after-a-reset'],
            bounds='a stored (a & b) | c / a | c object awaited (or used by until) by two waiters '
                   'starting in [0,30] while five flag toggles happen at free gaps in [0,6]'))
